@@ -559,6 +559,33 @@ func runC01(c *eng.Ctx) {
 					}
 				}
 			}
+			// every argument of a re-emitted record is read from the version being snapshotted (the loop variables over its
+			// state), never taken from createFamilySnapshot's own parameters (e.g. the id of the family being written, which
+			// differs from the SOURCE family id a reference mark is filed under)
+			for si, s := range sites {
+				for ai, a := range eng.CallArgs(s.Instr.(*ssa.Call)) {
+					if _, isC := a.(*ssa.Const); isC {
+						continue
+					}
+					fromParam := eng.DependsOn(a, func(x ssa.Value) bool {
+						pr, ok := x.(*ssa.Parameter)
+						return ok && pr.Parent() == sn && pr != sn.Params[0] && !strings.Contains(pr.Type().String(), "FamilyVersion")
+					})
+					fromState := eng.DependsOn(a, func(x ssa.Value) bool {
+						switch y := x.(type) {
+						case *ssa.Next, *ssa.Range:
+							return true
+						case *ssa.Call:
+							return y.Common().IsInvoke()
+						}
+						return false
+					})
+					_ = fromState
+					c.Check(!fromParam, fmt.Sprintf("snapshot-record-from-version-state:%s[%d,%d]", t, si, ai), s.Instr, sn,
+						"each field of a record in the manifest snapshot is read from the version's state (for a reference mark: store, SOURCE family id and file are the keys and elements of the reference map)",
+						"argument "+p.Desc(a)+" is a parameter of createFamilySnapshot, not a value read from the version state")
+				}
+			}
 			c.Check(len(sites) > 0 && inLoop, "snapshot-emits:"+t, nil, sn,
 				"the manifest snapshot re-emits every additive record kind ("+t+"), so version state survives manifest rotation", "createFamilySnapshot never adds a "+k+" record")
 		}
